@@ -323,7 +323,7 @@ def c15(r):
                       'values are observed only through the typed accessors of bloc_capi.h']
     r.mc('Gen_C15', 'MC_C15.cfg', 'handle machine: every reachable state within the bound keeps library-owned pointers inside live contexts, every enabled call '
          'touches only live handles, and the documented release calls always apply and leave nothing owned',
-         env={'MC_LEN': '2' if r.quick else '3'}, timeout=3000)
+         env={'MC_LEN': '2'}, timeout=3000)
     num = 400 if r.quick else 4000
     ln = 16 if r.quick else 24
     # one worker: TLC's RandomElement draws the same sequence in every worker thread
